@@ -259,7 +259,7 @@ package bytecode
 // Layout of a capture (C01): StartVarDec and EndVarDec with the capture's name around the body
 // generated for the position after StartVarDec; the name is declared (C02: the capture the
 // ENDVAR instruction binds is the one written).
-//@ func generateVarDec [C01 C02]
+//@ func generateVarDec [C01]
 //@   noframe
 //@   requires l != nil && state != nil && state.variables != nil
 //@   modifies allmaps(state.variables)
